@@ -156,7 +156,7 @@ structure Script where
   xfers : List (Addr × Nat) := []
   sets : List (Nat × Nat) := []
   dels : List Nat := []
-  /-- `CheckFeeDelegation` refuses -/
+  /-- the contract's `check_delegation` function refuses (`CheckFeeDelegation` returns an error) -/
   nofd : Bool := false
 deriving Repr, Inhabited
 
@@ -676,7 +676,10 @@ def executeTx (c : Ctx) (w : World) (bp : Nat) (tx : Tx) : Result :=
     match validateMaxFee c tx rcv.cur.bal with
     | some r => rej r
     | none =>
-      if tx.script.nofd then rej .other
+      -- contract.CheckFeeDelegation: `GetABI` finds no code ("cannot find contract"): the recipient of a
+      -- fee-delegation tx must be a contract; then the contract's own check_delegation may refuse
+      if !rcv.cur.code then rej .other
+      else if tx.script.nofd then rej .other
       else finishVm w bp tx status true (execute c w tx snd rcv true)
   | _ => finishVm w bp tx status false (execute c w tx snd rcv false)
 
